@@ -132,6 +132,15 @@ def families(rng, quick):
                  ["import os.path", "import os"], ["from os.path import *", "from posixpath import join as split"]]:
         add("order-imports", " ; ".join(imps), "\n".join(imps) + "\nimport os.path\nf = globals().get('f', len)\nsplit = globals().get('split', len)\n"
             "print(f('a/b c'), split('a/b'), sorted(k for k in ('os', 'sys', 'json', 'abc', 'join', 'dumps') if k in globals()))\n")
+    # a user class that defines only some of the comparison methods: `not a < b` needs `__lt__`, `a >= b` needs `__ge__`
+    for methods in [["__lt__"], ["__lt__", "__gt__"], ["__lt__", "__le__", "__gt__", "__ge__"], ["__le__"], ["__gt__", "__ge__"]]:
+        body = "".join(f"    def {m}(self, other):\n        return self.v {dict(__lt__='<', __le__='<=', __gt__='>', __ge__='>=')[m]} other.v\n" for m in methods)
+        for op in ["<", "<=", ">", ">="]:
+            add("invert-boolean-check", f"dunders:{'+'.join(methods)}:{op}",
+                f"class K:\n    def __init__(self, v):\n        self.v = v\n{body}a, b = K(1), K(2)\n"
+                f"try:\n    print(not a {op} b)\nexcept TypeError:\n    print('TypeError')\n")
+    for field in ["{set([x, y])}", "{set([x, y])!r:>10}", "{ set([x, y])}", "{len(set([x, y]))}", "{set([x])}{set([y])}"]:
+        add("use-set-literal", f"fstring:{field}", f'x, y = 1, 2\nprint(f"{field}")\n')
     for name, src in sql_extra_programs():
         add("sql-parameterization", name, src)
     for name, src in sql_printf_programs(rng, 16 if quick else 200):
@@ -149,7 +158,7 @@ def families(rng, quick):
         rng.shuffle(out)
         for p in out:
             keep.setdefault(p["codemod"], [])
-            if len(keep[p["codemod"]]) < {"sql-parameterization": 30, "use-walrus-if": 24, "lazy-logging": 20}.get(p["codemod"], 14):
+            if len(keep[p["codemod"]]) < {"sql-parameterization": 24, "use-walrus-if": 20, "lazy-logging": 16}.get(p["codemod"], 12):
                 keep[p["codemod"]].append(p)
         out = [p for ps in keep.values() for p in ps]
     return out
@@ -461,7 +470,7 @@ def compare(ctx, jobs, tag, cls_prefix, classify=False):
                  nontrivial_key=("family", j["codemod"], j["source"], cfg), sample=False)
         j["obs"], j["obs_after"] = b, a
         exp = j.get("expect_class")
-        known = c08_classes.classify(j["codemod"], j["source"], b, a) if classify else None
+        known = c08_classes.classify(j["codemod"], j["source"], b, a, j.get("after")) if classify else None
         if known:
             ctx.count("class:" + known)
         if exp and (b == a or known != exp):
@@ -553,7 +562,7 @@ def line_stage(ctx, base_jobs):
         kept = []
         for j in jobs:
             per[j["codemod"]] = per.get(j["codemod"], 0) + 1
-            if per[j["codemod"]] <= (18 if j["codemod"] == "sql-parameterization" else 30):
+            if per[j["codemod"]] <= (10 if j["codemod"] == "sql-parameterization" else 20):
                 kept.append(j)
         jobs = kept
     rewrite(ctx, jobs, "lines")
